@@ -1,32 +1,20 @@
-import PyCraft
+import PyCraft.Drive.VarInt
+import PyCraft.Drive.McHash
+import PyCraft.Drive.Position
+import PyCraft.Drive.Auth
 /-!
 Line-protocol driver over the executable definitions of the models.  One request per line, tokens
 separated by single spaces, byte strings hex-encoded (`-` = empty).  One canonical reply per line.
 Anything unparsable yields `bad-op` (never a default value).
 -/
-open PyCraft
+open PyCraft PyCraft.Drive
 
-def exc {α} (f : α → String) : Except Err α → String
-  | .ok a => "ok " ++ f a
-  | .error e => "err:" ++ toString e
+def handlers : List (List String → Option String) := [varint, mchash, position, auth]
 
 def handle (toks : List String) : String :=
-  match toks with
-  | ["varint.enc", n] =>
-    match n.toInt? with
-    | some v => exc hexOut (encVarIntZ v)
-    | none => "bad-op"
-  | ["varint.dec", mx, h] =>
-    match mx.toNat?, bytesOfHex h with
-    | some mx, some bs =>
-      exc (fun (p : Nat × Bytes) => s!"{p.1} {hexOut p.2}") (decVarInt mx bs)
-        ++ s!" reads={decVarIntReads mx 0 bs}"
-    | _, _ => "bad-op"
-  | ["varint.size", n] =>
-    match n.toInt? with
-    | some v => exc toString (varintSize v)
-    | none => "bad-op"
-  | _ => "bad-op"
+  match handlers.findSome? (· toks) with
+  | some r => r
+  | none => "bad-op"
 
 partial def loop (h : IO.FS.Stream) (out : IO.FS.Stream) : IO Unit := do
   let line ← h.getLine
